@@ -15,6 +15,8 @@ theorem promotion_table (t : IType) : ofCTy (integer_promotion t.toCTy) = some (
   rw [List.all_eq_true] at h
   simpa using h t (IType.mem_all t)
 
+example : promote .ushort = .int ∧ promote .uint = .uint ∧ promote .bool = .int ∧ promote .enumU = .uint := by decide
+
 /-- **Usual arithmetic conversions.**  For every pair of integer types the CURRENT
 `arithmetic_conversion` returns a type with the width and signedness of the C11 6.3.1.8 common
 real type … -/
@@ -41,6 +43,9 @@ theorem usual_arith_exact (t1 t2 : IType) :
   have h2 := h1 t2 (IType.mem_all t2)
   simpa using h2
 
+example : usualArith .uint .long = .long ∧ usualArith .int .uint = .uint ∧ usualArith .ulong .llong = .ullong ∧
+    usualArith .schar .ushort = .int ∧ ¬ sameRepr .int .uint := by decide
+
 /-- signedness, bit size and MIR data type c2mir assigns to every integer type are those of LP64 -/
 theorem type_repr_table (t : IType) :
     ((signed_integer_type_p t.toCTy ≠ 0) = (t.signed = true)) ∧ int_bit_size t.toCTy = (t.width : Int) ∧
@@ -65,6 +70,9 @@ theorem insn_table (o : BinOp) (t : IType) (ht : promote t = t) (n : Int) (hn : 
   have h2 := h1 t (arith_of_promoted t ht)
   rw [List.all_eq_true] at h2
   simpa using h2 n hn
+
+example : promote .uint = .uint ∧ N_RSH_ASSIGN ∈ nodesOf .rsh ∧ insnFor .rsh .uint = (.ursh, true) ∧
+    insnFor .div .long = (.div, false) := by decide
 
 /-- conversion of integer values at compile time (`cast_value`) is the C conversion, for every
 target type except `_Bool` … -/
@@ -92,6 +100,8 @@ theorem cast_value_meets_c (t : IType) (ht : t.std ≠ .bool) (x : W64) : castVa
         Bool.false_eq_true, reduceCtorEq]
        first | exact e8s x | exact e16s x | exact e32s x | exact e64s x
              | exact eu 8 x (by decide) | exact eu 16 x (by decide) | exact eu 32 x (by decide) | exact e64u x)
+
+example : castValue .schar 0x1FF = -1 ∧ cConv .ushort (-1) = 0xFFFF := by decide
 
 /-- … the full statement is FALSE for `_Bool` on the current code: `cast_value` (and the run-time
 `cast`, which emits `UEXT8`) truncates to 8 bits instead of testing for non-zero (C11 6.3.1.2):
